@@ -364,6 +364,8 @@ class CircuitCompositeOperation(ICircuitCompositeOperation):
                     _relation_to_group=MultiRelationType.LATEST,
                     _relation_type=relation_type,
                 )
+        # Positions in the rebuilt graph follow the (new) relation links, not start times memoized under the previous ones
+        clear_start_time_cache()
         for operation in tqdm(operations, desc="Flatten Circuit Graph"):
             CircuitGraphBranch.add_to_graph(
                 graph=flatten_circuit_graph,
